@@ -16,9 +16,17 @@ Lemma compute_forces_container :
   In "Sanitizer.transform:compute"%string (forces eof_path false true false).
 Proof. repeat split; vm_compute; tauto. Qed.
 
-(* POP and OPA apply numpy linear algebra to possibly lazy arrays: these sites fire whatever the flags *)
-Lemma pop_opa_force_refuted : forces pop_path false false false <> [] /\ forces opa_path false false false <> [].
-Proof. split; vm_compute; discriminate. Qed.
+(* POP and OPA: their numpy linear algebra is deferred as one task (apply_ufunc(dask="parallelized")), no site fires *)
+Lemma pop_opa_no_force_when_lazy : forces pop_path false false false = [] /\ forces opa_path false false false = [].
+Proof. split; vm_compute; reflexivity. Qed.
+
+(* what the table looked like before the repairs 376b618 / 37144b5: a numpy-only routine handed a dask array through
+   apply_ufunc(dask="allowed") fires whatever the flags *)
+Definition sites_before_repair : list (string * list lguard) :=
+  [("POP._fit_algorithm:apply_ufunc(self._np_solve_pop_system)", [GAlways]); ("OPA._fit_algorithm:apply_ufunc(np.linalg.eigh)", [GAlways])].
+Lemma allowed_numpy_kernel_refuted :
+  filter (fun s => fires false false false (snd s)) sites_before_repair <> [].
+Proof. vm_compute. discriminate. Qed.
 
 Section Chunks.
 Context {F : Type} (K : Ops F).
